@@ -145,7 +145,7 @@ class LevyDrivenSDEModel(Model):
         self._m = 1 if isinstance(x0, Number) else x0.size
         self._d = driver.dimension()
 
-        self.x0 = np.atleast_1d(x0)
+        self.x0 = np.atleast_1d(np.asarray(x0, dtype=float))
         self.a = a or Constant(m=self._m, d=self._d)
         self.driver = driver
 
